@@ -9,6 +9,7 @@ import (
 	"strings"
 	"time"
 
+	"compress/gzip"
 	"encoding/binary"
 	"encoding/hex"
 	"github.com/golang/snappy"
@@ -110,6 +111,32 @@ func Mutate(w *Wire, recipe string, n int) {
 		w.Body = nil
 	case "badsnappy":
 		w.Body = append([]byte{0xff, 0xff, 0xff, 0xff, 0x7f}, b...)
+	case "snappy-bomb":
+		// a snappy block whose header declares far more than follows (a few bytes asking for hundreds of megabytes), or an
+		// honest block of zeroes that inflates beyond the 10 MiB the server accepts
+		switch n % 3 {
+		case 0:
+			w.Body = append(binary.AppendUvarint(nil, 256<<20), 0, 0, 0, 0)
+		case 1:
+			w.Body = append(binary.AppendUvarint(nil, 100<<20+uint64(n)), b...)
+		default:
+			w.Body = snappy.Encode(nil, make([]byte, 12<<20))
+		}
+		w.ContentType = "application/x-protobuf"
+	case "gzip-bomb":
+		// 160 MiB of zeroes in about 160 KiB of gzip
+		var zb bytes.Buffer
+		zw := gzip.NewWriter(&zb)
+		zeros := make([]byte, 1<<20)
+		for i := 0; i < 160; i++ {
+			zw.Write(zeros)
+		}
+		zw.Close()
+		w.Body = zb.Bytes()
+		w.Encoding = "gzip"
+		if n%2 == 0 {
+			w.ContentType = "application/x-protobuf"
+		}
 	case "gzip-header":
 		w.Encoding = "gzip"
 	case "snappy-header":
